@@ -21,6 +21,7 @@ PARTIAL = [
     "lookup's permutation invariance, 'phi enters only through phi*M', and pointwise independence of the bulk update in the model",
 ]
 ASSUMPTIONS = ["bitwise reproducibility of LSODA/LAPACK for identical inputs on the same machine"]
+EXTRA_LEAN_MODULES = ("Properties.C08Interleave",)
 JIT_TWIN = ('update',)   # groups of harness/jittwin.py: the numba-compiled code is run on the same battery and compared
 TRUSTED = ["harness/solver.py scenario driver"]
 
@@ -117,12 +118,39 @@ def run(ctx, res):
             Fseq.append(F)
         inter = [solver.build_mineral(s) for s in scs]
         Fi = [np.array(sc["F0"], float) for _ in scs]
-        order = [(j, u) for u in range(len(ts) - 1) for j in rng.permutation(nm)]
+        if rng.random() < 0.5:   # round-robin with a fresh order in every round
+            order = [(j, u) for u in range(len(ts) - 1) for j in rng.permutation(nm)]
+            res.count("interleavings: round-robin")
+        else:                    # ANY merge of the per-mineral call sequences (Properties/C08Interleave.interleave_independent:
+            calls = [j for j in range(nm) for _ in range(len(ts) - 1)]   # the own-call lists are all that matters)
+            rng.shuffle(calls)
+            nxt = [0] * nm
+            order = []
+            for j in calls:
+                order.append((int(j), nxt[j]))
+                nxt[j] += 1
+            res.count("interleavings: arbitrary merge")
+        tainted = set()
         for j, u in order:  # interleaved across minerals (per-mineral order of intervals preserved)
+            if rng.random() < 0.25:
+                # a FAILED call on another mineral in between (a `none` operation of the model: the collection is unchanged):
+                # the caller's mistake (unsupported regime), the call raises, the caller restores the regime
+                k_ = int((j + 1 + rng.integers(0, nm - 1)) % nm)
+                keep = inter[k_].regime
+                inter[k_].regime = core.DeformationRegime.sliding_dislocation
+                try:
+                    inter[k_].update_orientations(params, Fi[k_].copy(), sc["field"], (ts[u], ts[u + 1], sc["field"].pos))
+                    tainted.add(k_)      # it did not raise: that is C07's subject, not an interference between minerals
+                except Exception:  # noqa: BLE001
+                    pass
+                inter[k_].regime = keep
+                res.count("interleavings: failed call on another mineral in between")
             Fi[j] = inter[j].update_orientations(params, Fi[j], sc["field"], (ts[u], ts[u + 1], sc["field"].pos))
         res.evaluations += 2 * nm
         res.count("interleavings")
         for j in range(nm):
+            if j in tainted:
+                continue
             if _digest(seq[j], Fseq[j]) != _digest(inter[j], Fi[j]):
                 res.violation("independence:interleaving", f"mineral {j} differs between sequential and interleaved updates", rep)
         bulk = [solver.build_mineral(s) for s in scs]
